@@ -1,5 +1,9 @@
 """C06 — the n-gram lookup model computes Katz back-off on any table.
 
+Widened after the seeded-change review: memory layouts / dtypes of the history tensor, idx spellings,
+constructor spellings, torch.save round trip, every entry x option of parse_arpa_lm, corrupt ARPA files
+(see design_notes/C06.md, "Seeded changes").
+
 Correspondence: a table (list of dicts, lowest order first) is handed to the real
 `LookupLanguageModel(V, sos, prob_dicts)` and to the Lean model `buildTrie`; the four flat
 buffers, the integer widths, `max_ngram`, `max_ngram_nodes`, `max_direct_descendants`, what
@@ -182,14 +186,24 @@ class C06(PropertyCheck):
     pid = "C06"
     rule = ("tables of order 1..4 over V<=4 (every order draws its keys independently: missing suffixes, "
             "missing unigrams, -inf entries, sos inside/outside the vocabulary and inside keys), values on a 1/8 "
-            "grid in [-16,0]; histories T=0..6, B=1..3; all chunk sizes 1..T+2; scalar and per-element idx; "
-            "state_dict round trip; a size stream (hundreds of n-grams, V up to 127) crossing the uint8/int16 "
-            "offset boundary; an out-of-vocabulary stream (ids never in the most recent slot); a malformed "
-            "stream (ValueError expected); ARPA text round trips. non-trivial: order >= 2 and at least one "
-            "back-off actually taken; distinct by the whole case")
+            "grid in [-16,0]; histories T=0..6, B=1..3, laid out in memory as a plain tensor, a transposed "
+            "batch-first tensor, a slice with non-zero storage offset, every second row, a column block, a "
+            "transposed block or an expanded column (unseen cells hold other valid tokens), dtype int64/int32; "
+            "all chunk sizes 1..T+2 (and < 1: RuntimeError); scalar and per-element idx, also spelled as python "
+            "int / one-element vector / negative / int32; constructor positional / destructive / prob_list=; "
+            "state_dict round trip through torch.save/load; a layout stream (every layout x order 2..4 x B 2..3, "
+            "T>=3); a size stream (hundreds of n-grams, V up to 127) crossing the uint8/int16 offset boundary; "
+            "an out-of-vocabulary stream (ids never in the most recent slot); a malformed stream (ValueError "
+            "expected); ARPA text through every entry (file object, path, opened file) x to_base_e "
+            "(True/False/default) x ftype x token2id x logger x positional/keyword, and corrupt files (IOError). "
+            "The small complete streams come first, the random bulk last. non-trivial: order >= 2 and at least "
+            "one back-off actually taken; distinct by the whole case")
     assumptions = [
         "float32 arithmetic is exact on the generated value grid (checked: every compared value is an exact rational)",
-        "torch indexing / masked_select / as_strided taken at their documented meaning",
+        "torch indexing / masked_select / as_strided / contiguous / is_contiguous taken at their documented meaning "
+        "(is_contiguous() is compared with the model's on every case)",
+        "the Lean model's buffers pass the proved-sound layout check `checkBuilt` on every generated case (evaluated by "
+        "the driver; hypothesis of theorem C06_lookup_checked)",
         "history tokens are in [0,V) or sos; out-of-vocabulary ids are only exercised away from the most recent "
         "slot of a window and below 256 (the code indexes the unigram level with the most recent token and casts "
         "the window to the id dtype)",
@@ -379,9 +393,9 @@ class C06(PropertyCheck):
             except Exception as e:
                 out["shape"] = {"error": type(e).__name__, "message": str(e)[:200]}
                 lm2 = None
-            if case.get("malformed") or case.get("bad_chunk"):
+            if "bad_chunk" in case:
                 try:
-                    lm.calc_full_log_probs_chunked(hist, {}, case.get("bad_chunk", 0))
+                    lm.calc_full_log_probs_chunked(hist, {}, case["bad_chunk"])
                     out["bad_chunk"] = "returned"
                 except Exception as e:
                     out["bad_chunk"] = type(e).__name__
@@ -613,6 +627,9 @@ class C06(PropertyCheck):
         if model["shape"] != {"N": bld["N"], "G": bld["G"], "S": bld["S"]}:
             raise AssertionError(f"Lean model: inferShape(buildTrie) = {model['shape']} but buildTrie has "
                                  f"N={bld['N']} G={bld['G']} S={bld['S']}")
+        if not case.get("malformed") and not model["flat_check"]:
+            raise AssertionError("Lean model: the buffers built by buildTrie do not pass checkFlat for the case's "
+                                 "table (the hypothesis of theorem C06_lookup_checked fails on this input)")
         if not model["view_rows_ok"]:
             raise AssertionError("Lean model: the view's logical rows are not the case's history")
         if not case.get("oov"):
